@@ -7,6 +7,7 @@ import (
 	"context"
 	"errors"
 	"fmt"
+	"net/http"
 	"runtime"
 	"slices"
 	"sort"
@@ -39,6 +40,13 @@ const (
 	// FaultSentinel: the storage answers with one reused error value of type *oidc.Error (storages commonly keep
 	// such errors in package-level variables); the library must not let one request's data travel in it to the next
 	FaultSentinel = "sentinel"
+	// FaultWrapped: the storage answers with an OAuth error of its own (access_denied with a description), wrapped by a
+	// layer above it: fmt.Errorf("...: %w", e), errors.Join, or op.NewStatusError(e, 403) - the documented way of
+	// attaching a status code. A fresh value each time.
+	FaultWrapped = "wrapped"
+	// FaultSlow: the call takes a few seconds and then succeeds (a slow disk, a lock wait): no error, the clock moves
+	// inside the request
+	FaultSlow = "slow"
 	// FaultTimeoutFast: the storage gives up on its own (statement or RPC time-out shorter than the request's
 	// deadline) and reports an error that wraps context.DeadlineExceeded while the request context is still live
 	FaultTimeoutFast = "timeout-fast"
@@ -64,6 +72,12 @@ func reqID(ctx context.Context) int {
 
 // ErrInjected is the plain error of the "error" fault. Its text is what real error texts are like: it contains
 // characters that are special somewhere on the way to the client (percent signs, an escaped DSN, quotes, ampersands).
+// RunawayCalls is the number of storage calls after which one request counts as not terminating.
+const RunawayCalls = 2000
+
+// WrappedDescription is the description of the OAuth error of the "wrapped" fault.
+const WrappedDescription = `simstore: refused by policy "p&1" (50% rule) <x>`
+
 var ErrInjected = errors.New(`simstore: injected storage failure (disk 100% full; dsn=user:p%40ss@db/x?a=1&b=2; 5%% "quoted" <tag>)`)
 
 // ---- domain objects ----
@@ -339,6 +353,7 @@ type Store struct {
 
 	// Sentinel is the reused *oidc.Error of FaultSentinel (one value per store, handed out again and again).
 	Sentinel *oidc.Error
+	wrapSeq  int
 }
 
 func NewStore() *Store {
@@ -376,6 +391,13 @@ func (s *Store) enter(ctx context.Context, method string, args ...any) (fault st
 	rid := reqID(ctx)
 	s.reqCalls[rid]++
 	n := s.reqCalls[rid]
+	if rid != 0 && n > RunawayCalls {
+		// no request of the library needs anywhere near this many storage calls: the handler is in a loop that the
+		// storage's answers do not end. Counted in calls, not in time, so that it replays. The panic unwinds the
+		// handler; the network layer records it with the exchange.
+		s.mu.Unlock()
+		panic(fmt.Sprintf("simstore: request does not terminate: %d storage calls in one request, the last one %s", n, method))
+	}
 	var parts []string
 	for _, a := range args {
 		parts = append(parts, fmt.Sprint(a))
@@ -390,6 +412,19 @@ func (s *Store) enter(ctx context.Context, method string, args ...any) (fault st
 	}
 	if forced != "" {
 		fault = forced
+	}
+	if fault == FaultSlow {
+		s.mu.Lock()
+		s.Journal[idx].Fault = fault
+		s.FaultsFired[fault]++
+		s.mu.Unlock()
+		t := time.NewTimer(time.Duration(2+n%3)*time.Second + 300*time.Millisecond)
+		select {
+		case <-ctx.Done():
+		case <-t.C:
+		}
+		t.Stop()
+		return "", nil
 	}
 	if fault != "" {
 		s.mu.Lock()
@@ -416,6 +451,20 @@ func (s *Store) faultErr(ctx context.Context, fault string) error {
 		return fmt.Errorf("simstore: %w", context.DeadlineExceeded)
 	case FaultSentinel:
 		return s.Sentinel
+	case FaultWrapped:
+		e := oidc.ErrAccessDenied().WithDescription("%s", WrappedDescription) // WithDescription is printf-like
+		s.mu.Lock()
+		s.wrapSeq++
+		n := s.wrapSeq
+		s.mu.Unlock()
+		switch n % 3 {
+		case 0:
+			return fmt.Errorf("simstore: policy layer: %w", e)
+		case 1:
+			return op.NewStatusError(e, http.StatusForbidden)
+		default:
+			return errors.Join(errors.New("simstore: audit record written"), e)
+		}
 	case FaultTimeoutFast:
 		return fmt.Errorf("simstore: statement timeout: %w", context.DeadlineExceeded)
 	case FaultCanceled:
